@@ -30,7 +30,7 @@ pub fn jobs(ctx: &Ctx) -> Vec<RJob> {
         }
     }
     // overrides: sampled reals
-    let n = ctx.tier.pick(10_000, ctx.scale(300_000));
+    let n = ctx.tier.pick(10_000, ctx.scale(1_500_000));
     let mut rng = Rng::new(ctx.seed ^ 0xc18);
     for _ in 0..n {
         k += 1;
